@@ -1039,6 +1039,35 @@ impl<'ast, 'r, 'a> Visit<'ast> for Collector<'r, 'a> {
                 self.rw.log.push(format!("R63 E.into_iter().enumerate().map(..).collect() -> loop {key} over the vector of E's items"));
                 self.edits.push(Edit { range: rng(e), text: format!("{{ let __src = __indexset_into_vec({src}); let ghost __src_g = __src@; let mut __out{out_ty} = Vec::new(); for {ipat} in {iter}0..__src.len() {hdr}{{ {bs}let {epat} = __src[{ipat}]; __out.push({body}); {be}}} {after} __out }}"), prio: 0 });
             }
+            // R65: `self.iter_transitions().filter_map(move |PAT| B)` as the value of a function extracted by R64
+            //   -> `{ let __src = self.iter_transitions(); let ghost __src_g = __src@; let mut __out = Vec::new();
+            //         for PAT in __src { if let Some(__v) = B { __out.push(__v); } } __out }`
+            syn::Expr::MethodCall(m)
+                if self.rw.on("R65") && m.method == "filter_map" && m.args.len() == 1
+                    && is_method(&m.receiver, "iter_transitions").map_or(false, |it| it.args.is_empty()) =>
+            {
+                let cl = match &m.args[0] {
+                    syn::Expr::Closure(c) if c.inputs.len() == 1 && !closure_has_control_flow(&c.body) => c,
+                    _ => die("unsupported", &format!("{}: R65 side condition violated (not a one-parameter closure without control flow)", self.rw.fn_path)),
+                };
+                let key = self.rw.next_key("R65");
+                let (iter, hdr, bs, be) = self.rw.loop_parts(&key);
+                let pat = self.rw.text(&cl.inputs[0]).to_string();
+                let src = self.render(&m.receiver);
+                let body = self.render(&cl.body);
+                let ckey = format!("{key}c");
+                let out_ty = self.rw.loops.iter().find(|l| l.key == ckey).and_then(|l| l.closure_sig.clone()).map(|t| format!(": {}", t.trim())).unwrap_or_default();
+                for l in self.rw.loops.iter_mut() { if l.key == ckey { l.used = true; } }
+                let mut after = String::new();
+                for p in self.rw.proofs.iter_mut() {
+                    if p.anchor == key && p.mode == "loopafter" {
+                        p.used = true;
+                        after.push_str(&format!("\nproof {{\n{}}}\n", p.text));
+                    }
+                }
+                self.rw.log.push(format!("R65 self.iter_transitions().filter_map(..) -> loop {key} collecting into a vector"));
+                self.edits.push(Edit { range: rng(e), text: format!("{{ let __src = {src}; let ghost __src_g = __src@; let mut __out{out_ty} = Vec::new(); for {pat} in {iter}__src {hdr}{{ {bs}if let Some(__v) = {body} {{ __out.push(__v); }} {be}}} {after} __out }}"), prio: 0 });
+            }
             // R52: M.keys().cloned().collect()  ->  __imap_key_set(&M)   (the key set of an inner map of the table; the
             // stand-in returns IndexSet<InpId>, so the rewritten text only compiles at that type)
             syn::Expr::MethodCall(m)
